@@ -41,16 +41,16 @@ func (r *recEngine) rec(kind, id string, chips int64) error {
 	r.calls = append(r.calls, recCall{kind, id, chips, t})
 	return nil
 }
-func (r *recEngine) PlayerReady(id string) error                { return r.rec("ready", id, 0) }
-func (r *recEngine) PlayerPay(id string, chips int64) error     { return r.rec("pay", id, chips) }
-func (r *recEngine) PlayerBet(id string, chips int64) error     { return r.rec("bet", id, chips) }
-func (r *recEngine) PlayerRaise(id string, chips int64) error   { return r.rec("raise", id, chips) }
-func (r *recEngine) PlayerCall(id string) error                 { return r.rec("call", id, 0) }
-func (r *recEngine) PlayerAllin(id string) error                { return r.rec("allin", id, 0) }
-func (r *recEngine) PlayerCheck(id string) error                { return r.rec("check", id, 0) }
-func (r *recEngine) PlayerFold(id string) error                 { return r.rec("fold", id, 0) }
-func (r *recEngine) PlayerPass(id string) error                 { return r.rec("pass", id, 0) }
-func (r *recEngine) PlayerJoin(id string) error                 { r.joins = append(r.joins, id); return nil }
+func (r *recEngine) PlayerReady(id string) error              { return r.rec("ready", id, 0) }
+func (r *recEngine) PlayerPay(id string, chips int64) error   { return r.rec("pay", id, chips) }
+func (r *recEngine) PlayerBet(id string, chips int64) error   { return r.rec("bet", id, chips) }
+func (r *recEngine) PlayerRaise(id string, chips int64) error { return r.rec("raise", id, chips) }
+func (r *recEngine) PlayerCall(id string) error               { return r.rec("call", id, 0) }
+func (r *recEngine) PlayerAllin(id string) error              { return r.rec("allin", id, 0) }
+func (r *recEngine) PlayerCheck(id string) error              { return r.rec("check", id, 0) }
+func (r *recEngine) PlayerFold(id string) error               { return r.rec("fold", id, 0) }
+func (r *recEngine) PlayerPass(id string) error               { return r.rec("pass", id, 0) }
+func (r *recEngine) PlayerJoin(id string) error               { r.joins = append(r.joins, id); return nil }
 
 // ---- phase 1: snapshot collection ------------------------------------------------------------------
 
@@ -517,9 +517,9 @@ func c20Node(n *snapNode, st *SuiteStats, viol map[string]*Violation, suite stri
 			engine := deepCopy(t) // what the engine holds and hands to every actor
 			rec := &recEngine{now: env.Now}
 			type att struct {
-				kind   string
-				ad     actor.Adapter
-				seen   *pt.Table
+				kind string
+				ad   actor.Adapter
+				seen *pt.Table
 			}
 			var atts []*att
 			for _, k := range order {
@@ -690,7 +690,7 @@ func init() {
 	const shards = 6
 	register(&Check{
 		ID: "C18", Level: "model_checking",
-		Rule: "(a) every distinct snapshot published along the full hand trees of the configurations (2-3 players, stacks from one chip upwards, minimum bets above the stack, facing all-ins, three blind structures, a sitting-out player) is shown to a fresh real bot (plain and humanized) for every player id and a stranger, every random draw of the bot enumerated (20-cell grid for the action roulette, every amount); the submitted call must be exactly one, for the bot itself, and accepted by a real hand engine started from that state (right payment size for antes / blinds); a bot not asked, not seated-in, or shown the same state twice must stay silent; (b) tables of 2-3 real bots wired as in the repository's actor test, every draw sequence with at most `bound` non-default draws: the hand must reach settlement with no driver help",
+		Rule:        "(a) every distinct snapshot published along the full hand trees of the configurations (2-3 players, stacks from one chip upwards, minimum bets above the stack, facing all-ins, three blind structures, a sitting-out player) is shown to a fresh real bot (plain and humanized) for every player id and a stranger, every random draw of the bot enumerated (20-cell grid for the action roulette, every amount); the submitted call must be exactly one, for the bot itself, and accepted by a real hand engine started from that state (right payment size for antes / blinds); a bot not asked, not seated-in, or shown the same state twice must stay silent; (b) tables of 2-3 real bots wired as in the repository's actor test, every draw sequence with at most `bound` non-default draws: the hand must reach settlement with no driver help",
 		Assumptions: []string{"Float64 draws are the mid-points of a 20-cell grid (every roulette bucket is at least 0.05 wide)", "acceptance is judged by a fresh native hand engine on a copy of the snapshot's hand state"},
 		Suites: func(tier string) []*Suite {
 			var ss []*Suite
@@ -719,7 +719,7 @@ func init() {
 	})
 	register(&Check{
 		ID: "C19", Level: "model_checking",
-		Rule: "every distinct snapshot published along the full hand trees of the configurations is shown to a fresh real player runner for every player id x status {running, idle, suspended} x action time {0,1,10}s wired to a recording engine under a virtual clock; no call may arrive before the thinking time unless pass is the only option or the runner is suspended; then exactly one call: pass | ready | check | fold | pay of the posted size, never call/bet/raise/allin; nothing when the player is not asked",
+		Rule:        "every distinct snapshot published along the full hand trees of the configurations is shown to a fresh real player runner for every player id x status {running, idle, suspended} x action time {0,1,10}s wired to a recording engine under a virtual clock; no call may arrive before the thinking time unless pass is the only option or the runner is suspended; then exactly one call: pass | ready | check | fold | pay of the posted size, never call/bet/raise/allin; nothing when the player is not asked",
 		Assumptions: []string{"the clock is virtual; calls are timestamped when they reach the recording engine"},
 		Suites: func(tier string) []*Suite {
 			var ss []*Suite
@@ -731,7 +731,7 @@ func init() {
 	})
 	register(&Check{
 		ID: "C20", Level: "model_checking",
-		Rule: "every distinct snapshot published along the full hand trees (all statuses and hand phases, showdown and fold-out endings) is handed, as the engine does, to 1-3 real actors (observer, system observer, bot, player runner) attached in every order through the real table-engine adapter; a non-system observer's callback must not see deck, burned cards, hole cards or hand strength while the hand is not closed (folded players' afterwards), the engine's table must be byte-identical afterwards and the other actors' views untouched; plus the schedules (<= bound deviations) of a hand's opening window, whose snapshots are shown to a plain observer",
+		Rule:        "every distinct snapshot published along the full hand trees (all statuses and hand phases, showdown and fold-out endings) is handed, as the engine does, to 1-3 real actors (observer, system observer, bot, player runner) attached in every order through the real table-engine adapter; a non-system observer's callback must not see deck, burned cards, hole cards or hand strength while the hand is not closed (folded players' afterwards), the engine's table must be byte-identical afterwards and the other actors' views untouched; plus the schedules (<= bound deviations) of a hand's opening window, whose snapshots are shown to a plain observer",
 		Assumptions: []string{"snapshots are the tables passed to OnTableUpdated"},
 		Suites: func(tier string) []*Suite {
 			var ss []*Suite
